@@ -1,6 +1,7 @@
 package main
 
 import (
+	"strings"
 	"fmt"
 	"go/token"
 	"go/types"
@@ -149,11 +150,11 @@ func propC03(c *Ctx) {
 		}
 		firstSlice = s
 		eqCall = cmp.call
-		t, f := boolEdges(cmp.call)
+		t, f := eqEdges(cmp.call)
 		eqTrue, eqFalse = append(eqTrue, t...), append(eqFalse, f...)
 		// `len(parent) != 32 || Equal(…)` evaluated as a value: the merged condition is true when the hashes are
 		// equal or the plan carries no parent hash
-		if refs := cmp.call.Referrers(); refs != nil {
+		if refs := eqValue(cmp.call).Referrers(); refs != nil && !eqTruth[cmp.call].neg {
 			absent := absentEdges(ld, fHeader, fParent)
 			for _, ref := range *refs {
 				ph, isPhi := ref.(*ssa.Phi)
@@ -162,7 +163,7 @@ func propC03(c *Ctx) {
 				}
 				good := true
 				for i, e := range ph.Edges {
-					if e == ssa.Value(cmp.call) {
+					if e == eqValue(cmp.call) {
 						continue
 					}
 					k, isK := e.(*ssa.Const)
@@ -1061,7 +1062,7 @@ func linkageEveryPair(c *Ctx, sp linkageSpec) (bool, string) {
 	// a mismatch makes the function return a non-nil error: in the function of
 	// the comparison, and then at each call site up to the function
 	mismatchIsError := func(call *ssa.Call) bool {
-		_, f := boolEdges(call)
+		_, f := eqEdges(call)
 		good := len(f) > 0
 		for _, e := range f {
 			ok := true
@@ -1564,7 +1565,7 @@ func eqHelperOf(h *ssa.Function) *eqHelperSummary {
 	var eq *ssa.Call
 	n := 0
 	for _, ci := range callsIn(h) {
-		if call, ok := ci.(*ssa.Call); ok && calleeName(call) == "bytes.Equal" {
+		if call, ok := ci.(*ssa.Call); ok && isByteEqualCall(call) {
 			eq = call
 			n++
 		}
@@ -1588,7 +1589,7 @@ func eqHelperOf(h *ssa.Function) *eqHelperSummary {
 		sum.param[k], sum.chain[k] = paramIndex(p), chain
 	}
 	// false only when the strings differ; true only when they are equal or a length test skipped the comparison
-	eqT, _ := boolEdges(eq)
+	eqT, _ := eqEdges(eq)
 	var lenEdges []Edge
 	allInstrs(h, func(in ssa.Instruction) {
 		b, ok := in.(*ssa.BinOp)
@@ -1607,7 +1608,7 @@ func eqHelperOf(h *ssa.Function) *eqHelperSummary {
 	})
 	for _, r := range returnsOf(h) {
 		for _, lf := range phiLeaves(returnValues(r)[0]) {
-			if lf.Val == ssa.Value(eq) {
+			if lf.Val == eqValue(eq) && !eqTruth[eq].neg {
 				continue
 			}
 			k, isC := lf.Val.(*ssa.Const)
@@ -1628,7 +1629,7 @@ func eqHelperOf(h *ssa.Function) *eqHelperSummary {
 				continue
 			}
 			// a constant false: only behind "Equal said no"
-			_, eqF := boolEdges(eq)
+			_, eqF := eqEdges(eq)
 			ok := false
 			if lf.Phi != nil && lf.Pred != nil {
 				ok = edgeGuarded(h, lf.Pred, lf.Phi.Block(), eqF)
@@ -1655,7 +1656,7 @@ func eqComparisonsIn(fns []*ssa.Function) []eqComparison {
 			if !ok {
 				continue
 			}
-			if calleeName(call) == "bytes.Equal" {
+			if isByteEqualCall(call) {
 				var c eqComparison
 				c.call = call
 				for k := 0; k < 2; k++ {
@@ -1733,4 +1734,72 @@ func rootIndex(idx ssa.Value) ssa.Value {
 		}
 	}
 	return idx
+}
+
+// ---- an equality test of two byte strings, however it is spelt -----------------------------------
+//
+// bytes.Equal(a, b) and slices.Equal(a, b) are true when equal; bytes.Compare(a, b) == 0 is the same test made
+// of a call and a comparison of its result with zero (!= 0: the negation). eqTruth remembers, for a Compare
+// call, the comparison that carries the verdict; eqEdges / eqValue give the branch edges and the boolean
+// value of "equal" for any of them.
+
+type eqVerdict struct {
+	v   ssa.Value // the boolean value
+	neg bool      // true: v is true when the strings differ
+}
+
+var eqTruth = map[*ssa.Call]eqVerdict{}
+
+func isByteEqualCall(call *ssa.Call) bool {
+	n := calleeName(call)
+	if n == "bytes.Equal" || strings.HasPrefix(n, "slices.Equal[") || n == "slices.Equal" {
+		return len(call.Call.Args) == 2
+	}
+	if n != "bytes.Compare" || len(call.Call.Args) != 2 {
+		return false
+	}
+	if _, ok := eqTruth[call]; ok {
+		return true
+	}
+	var verdict *ssa.BinOp
+	cnt := 0
+	for _, ref := range *call.Referrers() {
+		switch x := ref.(type) {
+		case *ssa.DebugRef:
+		case *ssa.BinOp:
+			other := x.Y
+			if other == ssa.Value(call) {
+				other = x.X
+			}
+			if k, isK := constInt(other); isK && k == 0 && (x.Op == token.EQL || x.Op == token.NEQ) {
+				verdict = x
+			}
+			cnt++
+		default:
+			cnt++
+		}
+	}
+	if verdict == nil || cnt != 1 {
+		return false
+	}
+	eqTruth[call] = eqVerdict{verdict, verdict.Op == token.NEQ}
+	return true
+}
+
+func eqValue(call *ssa.Call) ssa.Value {
+	if t, ok := eqTruth[call]; ok {
+		return t.v
+	}
+	return call
+}
+
+func eqEdges(call *ssa.Call) (equal, differ []Edge) {
+	if t, ok := eqTruth[call]; ok {
+		a, b := boolEdges(t.v)
+		if t.neg {
+			return b, a
+		}
+		return a, b
+	}
+	return boolEdges(call)
 }
